@@ -91,11 +91,17 @@ def c04_2(ctx):
                   describe_facts(cl))
         fcl = filter_facts_at(ctx, fn, u, res)
         lits = [l for c in fcl for l in c]
-        ok = fcl == [frozenset({('isinstance', L, 'LineWithBytes', True)})] or \
-            (all(len(c) == 1 for c in fcl) and set(lits) == {('isinstance', L, 'LineWithBytes', True)})
+        is_lwb = ('isinstance', L, 'LineWithBytes', True)
+        # a line that reserves no bytes occupies no address: leaving it out of the comparison is the one
+        # content-dependent selection that keeps the check complete (it can neither overlap nor hide an overlap)
+        nonempty = lit_cmp(ctx, fn, f'{L}.byte_size > 0', res)
+        ok = all(len(c) == 1 for c in fcl) and is_lwb in lits and set(lits) <= {is_lwb, nonempty}
         ctx.check(ok, 'overlap:every-byte-line', fn.site(u),
                   'the comparison and update happen for every byte-producing line and only depend on its type',
                   f'selected by: {describe_facts(fcl)}')
+        ctx.check(nonempty in lits, 'overlap:empty-lines-exempt', fn.site(u),
+                  'a line that reserves no bytes (e.g. a .zerountil whose address is already passed) occupies no address and is never reported as overlapping',
+                  'zero-sized lines take part in the comparison: a program whose byte-producing lines are disjoint is rejected when such a line sits inside another line\'s range')
     # initial value None before the loop
     init = [n for n in walk_no_nested(fn.node) if isinstance(n, ast.Assign) and len(n.targets) == 1
             and unparse(n.targets[0]) == prev and n not in upd]
@@ -149,9 +155,11 @@ MUTANTS = [
         compilable_line_obs.sort(key=lambda x: x.address)
         compilable_line_obs.extend(predefined_line_obs)
 ''', 'C04.1'),
-    V('c04-skip-muted', _E, '''            if isinstance(lobj, LineWithBytes):
-                if last_line is not None and''', '''            if isinstance(lobj, LineWithBytes) and not lobj.is_muted:
+    V('c04-skip-muted', _E, '''            if isinstance(lobj, LineWithBytes) and lobj.byte_size > 0:
+                if last_line is not None and''', '''            if isinstance(lobj, LineWithBytes) and lobj.byte_size > 0 and not lobj.is_muted:
                 if last_line is not None and''', 'C04.2'),
+    V('c04-zero-size-line-rejected', _E, '            if isinstance(lobj, LineWithBytes) and lobj.byte_size > 0:\n                if last_line', '            if isinstance(lobj, LineWithBytes):\n                if last_line', 'C04.2'),
+    V('c04-skip-small-lines', _E, '            if isinstance(lobj, LineWithBytes) and lobj.byte_size > 0:\n                if last_line', '            if isinstance(lobj, LineWithBytes) and lobj.byte_size > 1:\n                if last_line', 'C04.2'),
     V('c04-prev-only-instr', _E, '                last_line = lobj\n', '                if lobj.byte_size > 1:\n                    last_line = lobj\n', 'C04.2'),
     V('c04-same-zone-only', _E, 'if last_line is not None and (last_line.address', 'if last_line is not None and last_line.memory_zone is lobj.memory_zone and (last_line.address', 'C04.2'),
     V('c04-sort-key', _E, 'compilable_line_obs.sort(key=lambda x: x.address)', 'compilable_line_obs.sort(key=lambda x: x.line_id.line_num)', 'C04.1'),
